@@ -69,6 +69,10 @@ fam('api-timeseries', 'h_api.c', 'a_timeseries', N=2, w=4)
 fam('api-timeseries-3', 'h_api.c', 'a_timeseries', tier='thorough', N=3, w=30)
 fam('api-logger-names', 'h_api.c', 'a_logger_names', w=1)
 fam('api-reports-unrecorded', 'h_api.c', 'a_reports_unrecorded', w=1)
+fam('api-stop-not-running', 'h_api.c', 'a_stop_not_running', w=1)
+fam('api-copy-into-used-small', 'h_api.c', 'a_copy_into_used', NT=3, NS=2, NADD=4, w=1)
+fam('api-copy-into-larger', 'h_api.c', 'a_copy_into_used', NT=1030, NS=2, NADD=1030, w=3)
+fam('api-copy-into-smaller', 'h_api.c', 'a_copy_into_used', NT=2, NS=1030, NADD=1030, w=4)
 
 c = Check('C10')
 c.run_e1(fams, assumptions=['"valid program": every API call respects the argument conditions its header documents and its own entry asserts state; nothing is assumed about library-internal state',
